@@ -332,7 +332,7 @@ def foreign_style(x):
         nonlocal x
         x, r = divmod(x, n)
         return r
-    return {'ecma': bool((x0 * 2654435761 >> 9) & 1), 'family': take(3), 'su_order': take(5), 'keep_rr': bool(take(2)), 'budget': BUDGETS[take(len(BUDGETS))], 'split_nm': bool(take(2)),
+    return {'ecma': bool((x0 * 2654435761 >> 9) & 1), 'alien': ((x0 * 40503 >> 5) & 7) if (x0 * 40503 >> 8) & 1 else 0, 'family': take(3), 'su_order': take(5), 'keep_rr': bool(take(2)), 'budget': BUDGETS[take(len(BUDGETS))], 'split_nm': bool(take(2)),
             'split_sl': bool(take(2)), 'greedy': bool(take(2)), 'gap': take(3), 'zero': take(4), 'pad': (0, 0, 150, 3)[take(4)], 'mki': bool(take(2)),
             'dfs': bool(take(2)), 'jfirst': bool(take(2)), 'perm': [take(11) + 1 for _ in range(6)]}
 
